@@ -76,6 +76,11 @@ def run(pid, tier, seed, replay):
         if not c["ok"]:
             ck.fail_input("distribution channels (poll-granularity schedule): " + c["why"],
                           {k: c.get(k) for k in ("mode", "groups", "n", "ops", "panic")})
+    shared = [c for c in cases if c.get("k") == "shared_waker"]
+    for c in shared:
+        if not c["ok"]:
+            ck.fail_input("distribution channels (one task awaiting several sends with one waker): " + c["why"], c)
+    ck.coverage["shared_waker_cases"] = len(shared)
     for c in stress:
         if not c["ok"]:
             ck.fail_input("distribution channels (threaded stress): " + c["why"], c)
